@@ -17,6 +17,7 @@
 from __future__ import annotations
 
 from collections import deque
+from itertools import product
 
 from ..lang import Atomic, Constant, Operator, Predicate, Predicated
 from ..models import ValueCPL
@@ -93,15 +94,14 @@ class Model(LogicType.Model[Meta.values]):
 
     def _agument_extension_with_identicals(self, pred: Predicate, w):
         interp = self.frames[w].predicates[pred]
-        for c in self.constants:
-            identicals = self._get_identicals(c, w)
-            to_add = set()
-            for params in interp.having('T'):
-                if c in params:
-                    for new_c in identicals:
-                        to_add.add(substitute(params, c, new_c))
-            for params in to_add:
-                interp[params] = 'T'
+        # Each constant with its identicals.
+        classes = {c: (c, *self._get_identicals(c, w)) for c in self.constants}
+        to_add = set()
+        for params in interp.having('T'):
+            # Every way of replacing each parameter with one of its identicals.
+            to_add.update(product(*(classes.get(p, (p,)) for p in params)))
+        for params in to_add:
+            interp[params] = 'T'
 
     def _get_identicals(self, c: Constant, w=0) -> set[Constant]:
         interp = self.frames[w].predicates[Predicate.Identity]
